@@ -45,6 +45,7 @@ type ownHistory struct {
 	Ops   []ownOp   `json:"ops"`
 	Pool  []int     `json:"pool"`
 	Lossy bool      `json:"lossy"`
+	Cut   bool      `json:"cutoff"` // a release left objects of its tree unpooled because of the work-queue budget
 	Held  []ownHeld `json:"held"`
 	NObj  int       `json:"nobj"`
 }
@@ -176,6 +177,7 @@ func (r *ownRun) release(tr *ownTree) {
 	}
 	if len(tr.objs) > ast.MaxWorkQueueSize && len(put) < len(tr.objs) {
 		r.res.CutOffs++
+		r.h.Cut = true
 	}
 	restorePools(before)
 	restorePools(put)
